@@ -437,6 +437,11 @@ var historyRequests = []struct {
 	{"CONNECT origin.test:443", "CONNECT origin.test:443 HTTP/1.1\r\nHost: origin.test:443\r\n\r\n", "origin.test:443", ""},
 	{"CONNECT origin.test:8443", "CONNECT origin.test:8443 HTTP/1.1\r\nHost: origin.test:8443\r\n\r\n", "up.test:8080", "HTTP/1.1 200 OK\r\n\r\n"},
 	{"GET other.test/x", "GET http://other.test/x HTTP/1.1\r\nHost: other.test\r\n\r\n", "other.test:80", "HTTP/1.1 200 OK\r\nContent-Length: 0\r\nConnection: close\r\n\r\n"},
+	// origin-form on the plain listener: the proxy completes the URL itself (http://origin.test/x)
+	{"GET /x Host: origin.test", "GET /x HTTP/1.1\r\nHost: origin.test\r\n\r\n", "up.test:8080", "HTTP/1.1 200 OK\r\nContent-Length: 0\r\nConnection: close\r\n\r\n"},
+	// an intercepted session (mitm-domains = mitm.test only): CONNECT, TLS handshake with the proxy, one request inside
+	// (the request inside is https://mitm.test/in - no port in the URL - so the script's last line applies: through up.test:8080)
+	{"MITM session mitm.test:443", "CONNECT mitm.test:443 HTTP/1.1\r\nHost: mitm.test:443\r\n\r\n", "up.test:8080", "mitm"},
 }
 
 // historyScenario: one proxy whose PAC script answers by URL (port, path) and host; every sequence of n
@@ -446,13 +451,13 @@ func historyScenario(x *explore.X, n int) {
 	for i := 0; i < n; i++ {
 		seq = append(seq, x.ChooseFree(fmt.Sprintf("request-%d", i), len(historyRequests)))
 	}
-	w, err := world.Start(world.Options{PAC: historyPAC})
+	w, err := world.Start(world.Options{PAC: historyPAC, MITM: true, MITMDomains: []string{`^mitm\.test$`}})
 	if err != nil {
 		x.Failf("harness/start", "%v", err)
 		return
 	}
 	servers := map[string]*world.Server{}
-	for _, a := range []string{"up.test:8080", "origin.test:80", "origin.test:8080", "origin.test:443", "origin.test:8443", "b.test:2", "other.test:80"} {
+	for _, a := range []string{"up.test:8080", "origin.test:80", "origin.test:8080", "origin.test:443", "origin.test:8443", "b.test:2", "other.test:80", "mitm.test:443"} {
 		sv, err := w.Server(a)
 		if err != nil {
 			x.Failf("harness/listen", "%s: %v", a, err)
@@ -472,6 +477,34 @@ func historyScenario(x *explore.X, n int) {
 		}
 		cl.Send([]byte(rq.head))
 		world.Settle(100 * time.Millisecond)
+		if rq.reply == "mitm" {
+			if got := string(cl.Recv()); got != "HTTP/1.1 200 OK\r\n\r\n" {
+				x.Failf("mitm/connect-reply", "request %q after %v: CONNECT answered %q", rq.name, names[:len(names)-1], got)
+				return
+			}
+			tc := world.TLSClient(cl, &tls.Config{InsecureSkipVerify: true, ServerName: "mitm.test"})
+			if done, err := tc.Handshake(); !done || err != nil {
+				x.Failf("mitm/handshake", "request %q after %v: done=%v err=%v", rq.name, names[:len(names)-1], done, err)
+				return
+			}
+			tc.Send([]byte("GET /in HTTP/1.1\r\nHost: mitm.test\r\n\r\n"))
+			world.Settle(100 * time.Millisecond)
+			ds := w.Net.Dials()[before:]
+			x.Check()
+			if len(ds) != 1 || ds[0].Addr != rq.dial || ds[0].Outcome != "connected" {
+				x.Failf("wrong-party-contacted/after-earlier-requests", "request %q after %v: want exactly one connection, to %s; dials: %v", rq.name, names[:len(names)-1], rq.dial, ds)
+				return
+			}
+			hop := servers[rq.dial].Accept()
+			if hop != nil {
+				hop.Close() // the origin hangs up: the session ends with an error response, which is all this scenario needs
+			}
+			world.Settle(time.Second)
+			out = append(out, rq.dial)
+			tc.Close()
+			world.Settle(100 * time.Millisecond)
+			continue
+		}
 		ds := w.Net.Dials()[before:]
 		x.Check()
 		if len(ds) != 1 || ds[0].Addr != rq.dial || ds[0].Outcome != "connected" {
@@ -513,7 +546,7 @@ func historyScenario(x *explore.X, n int) {
 
 func TestC05(t *testing.T) {
 	s := explore.NewSuite(t, "C05", "exploration",
-		"configuration = upstream(21: none, static http/https/socks5, PAC scripts returning each result string of the alphabet incl. errors) x direct-domains(4) x proxy-localhost(3) x connect-to rule list(8) x target(6: names, explicit port, localhost, IPv6 literal, loopback IP) x kind(plain HTTP, CONNECT, inside MITM); deviation-bounded exploration (D=3 quick, 4 thorough) plus the full product upstream x direct-domains x localhost mode x target x kind (thorough) and connect-to x upstream x target x kind (both tiers); 99 endpoints listen on the in-memory network, the reference expectRoute names the one that must be dialled and checkHop verifies what it received first (request line form, CONNECT authority, SOCKS5 target, TLS hello); every other endpoint must stay untouched; plus (history) ONE proxy with a PAC script that answers by URL (port, path) and host, and EVERY sequence of 2 (quick) / 4 (thorough) requests out of 6 (plain and CONNECT, same host with different ports/paths, another host): each request must be routed by its own URL whatever was requested before; non-trivial = route compared")
+		"configuration = upstream(21: none, static http/https/socks5, PAC scripts returning each result string of the alphabet incl. errors) x direct-domains(4) x proxy-localhost(3) x connect-to rule list(8) x target(6: names, explicit port, localhost, IPv6 literal, loopback IP) x kind(plain HTTP, CONNECT, inside MITM); deviation-bounded exploration (D=3 quick, 4 thorough) plus the full product upstream x direct-domains x localhost mode x target x kind (thorough) and connect-to x upstream x target x kind (both tiers); 99 endpoints listen on the in-memory network, the reference expectRoute names the one that must be dialled and checkHop verifies what it received first (request line form, CONNECT authority, SOCKS5 target, TLS hello); every other endpoint must stay untouched; plus (history) ONE proxy with a PAC script that answers by URL (port, path) and host, and EVERY sequence of 2 (quick) / 4 (thorough) requests out of 8 (absolute-form and origin-form GET, CONNECT, an intercepted session with a request inside, same host with different ports/paths, another host): each request must be routed by its own URL whatever was requested before; non-trivial = route compared")
 	s.Assume = []string{"simnet owns every dial of the proxy", "PAC scripts are evaluated by the real pac package (goja)", "the address dialled is observed after the real DialRedirectFunc (connect-to) ran inside forwarder.Dialer"}
 	s.Add(explore.Scenario{Name: "bounded", Remote: true, MaxDev: map[string]int{"quick": 3, "thorough": 4},
 		Run: func(x *explore.X) { world.Run(t, x, func() { scenario(x, 0) }) }})
